@@ -456,7 +456,7 @@ func runC19(c *Ctx) {
 
 func calleeByName(c *Ctx, fn *ssa.Function, name string) *ssa.Function {
 	var out *ssa.Function
-	eachInstr(fn, func(_ *ssa.BasicBlock, in ssa.Instruction) {
+	eachInstrG(c.P, fn, func(_ *ssa.BasicBlock, in ssa.Instruction) {
 		if ci, ok := in.(ssa.CallInstruction); ok {
 			if cal := ci.Common().StaticCallee(); cal != nil && calleeName(cal) == name {
 				out = cal
